@@ -57,6 +57,18 @@ def sinkDelta (old new : List SinkEv) : List SinkEv := new.drop old.length
 
 def sortNat (l : List Nat) : List Nat := l.mergeSort (· ≤ ·)
 
+/-- the transaction in slot `n` read the heads under a stamp that is no longer the store's: it can
+only end in `ConcurrentTransaction`; the theorems (`TrxInv`, `TipsInv`, `trx_refines`) speak about
+transactions holding the CURRENT stamp, and the harness does not judge stale ones either — their
+`add`/`flush`/`tips` are executed but answered `stale` -/
+def isStale (s : St) (n : Nat) : Bool :=
+  match getSlot s.cl.trxs n, s.cl.store with
+  | some t, some st =>
+    match t.offset with
+    | some o => o != st.stamp
+    | none => false
+  | _, _ => false
+
 def step (s : St) (toks : List String) : St × String :=
   match toks with
   | ["new", g] =>
@@ -84,6 +96,7 @@ def step (s : St) (toks : List String) : St × String :=
       let r := AranyaV.Trx.step s.cl (.add n batch)
       let sk := showWindows s (sinkDelta s.cl.sink r.1.sink)
       ({ s with cl := r.1 },
+        if isStale s n then "stale" else
         match r.2 with
         | .count k => s!"ok {k} sink={sk}"
         | .err e => s!"err {errName e} sink={sk}"
@@ -95,6 +108,7 @@ def step (s : St) (toks : List String) : St × String :=
     | some n =>
       let r := AranyaV.Trx.step s.cl (.flush n)
       ({ s with cl := r.1 },
+        if isStale s n then "stale" else
         match r.2 with
         | .done => "ok"
         | .err e => s!"err {errName e}"
@@ -155,7 +169,8 @@ def step (s : St) (toks : List String) : St × String :=
   | ["tips", n] =>
     match n.toNat? with
     | some n =>
-      (s, match getSlot s.cl.trxs n with
+      (s, if isStale s n then "stale" else
+        match getSlot s.cl.trxs n with
         | none => "err NoTrx"
         | some t =>
           let ph := match t.phead with
